@@ -66,9 +66,12 @@ def _t_root(a):
             lambda dT: math.sqrt(1.0 + a * dT))
 
 
-def random_expr(rng):
-    """(text, function, spec) of an expression that is >= 1 for dT > 0."""
-    k = int(rng.integers(5))
+def random_expr(rng, bounded=False):
+    """Spec of an expression that is >= 1 for dT > 0; `bounded` excludes the
+    forms that grow like 1/dT for small rises (as in the built-in tables these
+    are only used for statistical subfactors, where dT (f - 1) stays finite;
+    as direct factors their product over rows is unbounded)."""
+    k = int(rng.integers(2, 5)) if bounded else int(rng.integers(5))
     r = lambda lo, hi: float(round(rng.uniform(lo, hi), 4))  # noqa: E731
     if k == 0:
         spec = ['inv', r(0.5, 8.0)]
@@ -110,7 +113,7 @@ def random_table(rng, ncol, n_direct=None, n_stat=None, p_expr=0.0,
                 if unity:
                     ent.append(1.0)
                 elif expr_cols and c in expr_cols and rng.random() < p_expr:
-                    ent.append(random_expr(rng))
+                    ent.append(random_expr(rng, bounded=(typ == 'Direct')))
                 elif rng.random() < 0.45:
                     ent.append(1.0)
                 else:
